@@ -229,7 +229,8 @@ func runLife(rc *RunCtx, sc *lifeScenario, seed uint64) *lifeOutcome {
 			out.mu.Unlock()
 		}
 	}
-	defer func() { server.SimBeforeLock = nil }()
+	server.SimAfterLock = s.AfterLock
+	defer func() { server.SimBeforeLock, server.SimAfterLock = nil, nil }()
 
 	ln := NewListener(s, "L")
 	h := &lifeHandler{s: s, out: out, ops: map[uint16]*lifeOp{}, seed: seed}
